@@ -547,7 +547,17 @@ func injVerdict(params []reflect.Type, accept [][]string, o injObs) string {
 	return ""
 }
 
+// c04Base, c04Opt: embedded into the struct given to Apply, untagged. Their fields belong to them, carry no tag and are
+// promoted; Apply has no business with them - nor with the nil pointer one of them is embedded through.
+type c04Base struct {
+	Tenant cS
+	Serial cN
+}
+type c04Opt struct{ Note cT1 }
+
 type applyTarget struct {
+	c04Base
+	*c04Opt
 	A cT1  `inject:""`
 	B cI1  `inject:"x"`
 	C cS   // untagged: must stay untouched
@@ -611,6 +621,7 @@ func judgeInj(w *core.W, c *injCase) {
 	if c.Apply {
 		var tgt applyTarget
 		tgt.C = "untouched"
+		tgt.c04Base = c04Base{Tenant: "acme", Serial: 7}
 		if len(c.Regs)%2 == 1 {
 			// a struct pre-filled by its constructor: tagged fields are injected all the same
 			tgt.A, tgt.F = cT1{"prefilled"}, cN(-1)
@@ -664,7 +675,7 @@ func judgeInj(w *core.W, c *injCase) {
 				w.Violate("apply", c, fmt.Sprintf("%s: all tagged fields are resolvable, Apply returned %v", label, err))
 				return false
 			}
-			if tgt.C != "untouched" || tgt.d != nil || tgt.G != (cT3{}) || tgt.H != nil {
+			if tgt.C != "untouched" || tgt.d != nil || tgt.G != (cT3{}) || tgt.H != nil || tgt.c04Base != (c04Base{Tenant: "acme", Serial: 7}) || tgt.c04Opt != nil {
 				w.Violate("apply", c, label+": an untagged or unexported field was modified")
 				return false
 			}
